@@ -312,9 +312,9 @@ int begin_order[C20_MAXT];
 int begin_counter;
 bool saved;
 
-enum { PT_CHUNK_CROSSED = 0, PT_EMPTY_LOG, PT_ONE_EVENT, PT_EXACT_CHUNK, PT_MULTI_THREAD, PT_NESTED_GE2, PT_CPU_COUNTER, PT_NO_PROCESS_NAME, PT_ID_RECYCLED };
+enum { PT_CHUNK_CROSSED = 0, PT_EMPTY_LOG, PT_ONE_EVENT, PT_EXACT_CHUNK, PT_MULTI_THREAD, PT_NESTED_GE2, PT_CPU_COUNTER, PT_NO_PROCESS_NAME, PT_ID_RECYCLED, PT_CXX_LOCALE };
 const char *tprobe_names[] = {"thread_crossed_chunk_boundary", "log_with_no_event", "thread_with_exactly_one_event", "thread_with_exactly_one_chunk",
-                              "two_or_more_recording_threads", "nesting_depth_ge_2", "auxiliary_cpu_counter_in_file", "no_process_name", "thread_id_reused_by_a_later_recording_thread", nullptr};
+                              "two_or_more_recording_threads", "nesting_depth_ge_2", "auxiliary_cpu_counter_in_file", "no_process_name", "thread_id_reused_by_a_later_recording_thread", "global_cxx_locale_with_decimal_comma_and_grouping", nullptr};
 const char *tfault_names[] = {"(unused)", "clock_jump", nullptr};
 
 void treset()
@@ -349,6 +349,7 @@ void tplan_common(int tier, int global)
   sim_set_clock_jumps((int)sim_plan(2));
   tplan.many_names = sim_plan(4) == 0;
   tplan.huge_names = !tplan.many_names && sim_plan(16) == 0;
+  tplan.cxx_locale = sim_plan(6) == 0;
   tplan.extra_save = sim_plan(5) == 0 ? 1 + (int)sim_plan(2) : 0;
   for (int t = 0; t < tplan.nthreads; t++) {
     tplan.named[t] = 1;
@@ -549,9 +550,9 @@ int stuck(int deadlock, char *cls, size_t n)
 
 void tdescribe(char *buf, size_t n)
 {
-  int k = snprintf(buf, n, "{\"api\": \"%s\", \"chunk\": %u, \"threads\": %d, \"process_name\": %d, \"thread0_records\": %d, \"one_after_another\": %d, \"names_from_pool_of_200\": %d, \"extra_saves\": %d, \"names_of_40000_to_100000_characters\": %d, \"events_per_thread\": [",
+  int k = snprintf(buf, n, "{\"api\": \"%s\", \"chunk\": %u, \"threads\": %d, \"process_name\": %d, \"thread0_records\": %d, \"one_after_another\": %d, \"names_from_pool_of_200\": %d, \"extra_saves\": %d, \"names_of_40000_to_100000_characters\": %d, \"global_cxx_locale_is_the_users\": %d, \"events_per_thread\": [",
                    tplan.global_api ? "free functions (global recorder)" : "private TraceRecorder", tplan.chunk, tplan.nthreads, tplan.process_name,
-                   tplan.t0_records, tplan.sequential, tplan.many_names, tplan.extra_save, tplan.huge_names);
+                   tplan.t0_records, tplan.sequential, tplan.many_names, tplan.extra_save, tplan.huge_names, tplan.cxx_locale);
   for (int t = 0; t < tplan.nthreads; t++)
     k += snprintf(buf + k, n - k, "%s\"%d bulk + %d scripted\"", t ? "," : "", tplan.bulk[t], tplan.nops[t]);
   snprintf(buf + k, n - k, "]}");
@@ -733,6 +734,11 @@ void c20t_recorded(int slot, int kind, int name, int cat, unsigned long long val
   sim_event(2001 + (uint32_t)kind, (uint64_t)slot << 16 | (uint64_t)(name & 0xff) << 8 | (uint64_t)(cat & 0xff), value);
   Rec r = {kind, name, cat, value};
   recorded[slot]->push_back(r);
+}
+void c20t_locale_result(int adopted)
+{
+  if (adopted)
+    sim_probe(PT_CXX_LOCALE);
 }
 void c20t_saved()
 {
